@@ -1266,6 +1266,17 @@ func (w *World) SelectorStory(o HistOpts) {
 		c = others[1]
 	}
 	w.block(o, 3*time.Second, func() { w.SwitchReporter(sel, c) })
+	// while its lock runs the selector opens a delegation with a validator it had none with (a new staking record is
+	// created, the selection must keep its lock)
+	if w.pick(2) == 0 {
+		for _, v := range w.Vals {
+			if _, err := w.App.StakingKeeper.GetDelegation(w.Ctx, sel.Addr, v.ValAddr); err != nil {
+				v := v
+				w.block(o, 2*time.Second, func() { w.Delegate(sel, v, int64(1_000_000+w.pick(4_000_000))) })
+				break
+			}
+		}
+	}
 	w.block(o, 2*time.Second, func() { w.Submit(c, q(), hex32(1002)) })
 	w.block(o, 2*time.Second, func() { w.Submit(c, q(), hex32(1003)) }, func() { w.Submit(cur, q(), hex32(1003)) })
 	if w.pick(2) == 0 {
